@@ -1,7 +1,7 @@
 (* C07 — Connections are isolated: pooled buffers never leak data between connections.
-   Statements only; proofs in Proofs/PoolsP.v. *)
-From Coq Require Import List Arith Bool.
-From WS Require Import Model.Pools Proofs.PoolsP.
+   Statements only; proofs in Proofs/PoolsP.v and Proofs/WinPoolP.v. *)
+From Coq Require Import List Arith Bool NArith.
+From WS Require Import Base.Words Model.Proto Model.Pools Proofs.PoolsP Model.WinPool Proofs.WinPoolP.
 Import ListNotations.
 
 (* For EVERY history of operations on any number of connections sharing the pool — starting compressed or plain messages,
@@ -27,3 +27,47 @@ Proof. vm_compute. reflexivity. Qed.
 (* and taking an object somebody still holds is impossible *)
 Example C07_no_double_get : prun pinit [PStart 0 7; PStart 1 7] = None.
 Proof. vm_compute. reflexivity. Qed.
+
+(* ---- the pooled sliding windows (compress.go swPool), modelled with their backing arrays (Model/WinPool.v) ---- *)
+
+(* For EVERY history of any number of connections taking, filling and returning sliding windows — the pool handing out any
+   array it has, or none — the dictionary a connection gives its inflater is the last [cap] bytes of what that connection
+   ITSELF wrote since it took its window: a function of its own operations alone (own_of ... (wproj c ops)). *)
+Theorem C07_window_own_bytes : forall cap ops s, wrun cap winit ops = Some s ->
+  forall c, wdict s c = lastn cap (own_of false [] (wproj c ops)).
+Proof. exact win_dict_own_bytes. Qed.
+Print Assumptions C07_window_own_bytes.
+
+(* non-interference: alone in the process (every array new) the connection ends with the same dictionary *)
+Theorem C07_window_noninterference : forall cap ops s c, wrun cap winit ops = Some s ->
+  exists s', wrun cap winit (wproj c ops) = Some s' /\ wdict s' c = wdict s c.
+Proof. exact win_noninterference. Qed.
+Print Assumptions C07_window_noninterference.
+
+(* a pooled window shows nothing, and every array keeps its capacity (the in-place append of slidingWindow.write stays inside it) *)
+Theorem C07_pooled_windows_show_nothing : forall cap ops s, wrun cap winit ops = Some s ->
+  forall a w, In (a, w) (ws_pool s) -> w_vis w = [].
+Proof. exact win_pooled_show_nothing. Qed.
+Print Assumptions C07_pooled_windows_show_nothing.
+
+Theorem C07_window_arrays_have_cap : forall cap ops s, wrun cap winit ops = Some s ->
+  (forall c a w, ws_conn s c = Some (a, w) -> length (w_vis w) + length (w_junk w) = cap) /\
+  (forall a w, In (a, w) (ws_pool s) -> length (w_vis w) + length (w_junk w) = cap).
+Proof. exact win_arrays_have_cap. Qed.
+Print Assumptions C07_window_arrays_have_cap.
+
+(* not vacuous: connection 1 takes the array connection 0 filled and returned — the array still holds 0's bytes, the
+   dictionary is empty, and after 1's own write it is exactly that write *)
+Example C07_window_stale_bytes_invisible :
+  match wrun 4 winit [WinGet 0 7; WinWrite 0 [1; 2; 3]%N; WinPut 0; WinGet 1 7] with
+  | Some s => warray s 1 = [1; 2; 3; 0]%N /\ wdict s 1 = []
+  | None => False
+  end.
+Proof. vm_compute. split; reflexivity. Qed.
+
+Example C07_window_own_write_only :
+  match wrun 4 winit [WinGet 0 7; WinWrite 0 [1; 2; 3]%N; WinPut 0; WinGet 1 7; WinWrite 1 [9; 8]%N] with
+  | Some s => wdict s 1 = [9; 8]%N /\ warray s 1 = [9; 8; 3; 0]%N
+  | None => False
+  end.
+Proof. vm_compute. split; reflexivity. Qed.
